@@ -8,7 +8,7 @@ import itertools, random, time
 
 from vlib.core import PropertyCheck
 from . import sched_common as sc
-from .c05 import gate_obj, fields_of, specs_from
+from .c05 import gate_obj, fields_of, specs_from, used_mismatch
 
 KNOWN_WITNESS = {"ins": [["CNOT", [1], [0], None], ["SNOT", [2], [], None], ["CNOT", [2], [0], None]],
                  "durs": [10, 1, 1], "den": 1, "method": "ASAP", "perm": True, "shuf": None, "scope": "full"}
@@ -130,13 +130,17 @@ class C11(PropertyCheck):
         rng = ctx.rng
         lines, impl = [], []
         for specs, durs, method, perm, shuffle in batch:
-            ins = sc.make_instructions(specs, durs)
-            fields = []
-            for i, d in zip(ins, durs):
-                nm, ts, cs = sc.ins_fields(i)
-                if i.duration * sc.DEN != d:
+            fields = [fields_of(s) + (d,) for s, d in zip(specs, durs)]
+            try:
+                ins = sc.make_instructions(specs, durs)
+                if any(i.duration * sc.DEN != d for i, d in zip(ins, durs)):
                     raise AssertionError("duration not exact")
-                fields.append((nm, ts, cs, d))
+            except AssertionError:
+                raise
+            except Exception as e:      # Instruction() is part of the code under test
+                impl.append(("other:" + type(e).__name__, None, None, None))
+                lines.append(sc.model_line(method, perm, fields, None))
+                continue
             log = sc.ShuffleLog(rng) if shuffle else None
             st, starts = sc.impl_schedule(ins, method, perm, log, random_shuffle=bool(shuffle))
             cyc = None
@@ -155,6 +159,9 @@ class C11(PropertyCheck):
                                                     f"shuffle={int(bool(shuffle))}"])
             w = {"ins": specs, "durs": durs, "den": sc.DEN, "method": method, "perm": perm, "shuf": shuf, "scope": "covered"}
             m = sc.parse_model(o)
+            mm = used_mismatch(specs)
+            if mm:
+                res.disagree(inp, mm[0], mm[1], "used_qubits of an instruction", w)
             if m["status"] != "ok" or st != "ok":
                 if m["status"] != st:
                     res.disagree(inp, m["status"], st, "verdict", w)
@@ -220,7 +227,10 @@ class C11(PropertyCheck):
         if all(not sc.used_of(s) for s in specs):
             return False, "no instruction uses a qubit (not a timed gate list)"
         _, Instruction, _, _, _ = sc._mods()
-        ins = [Instruction(gate_obj(s), duration=d) for s, d in zip(specs, durs)]
+        try:
+            ins = [Instruction(gate_obj(s), duration=d) for s, d in zip(specs, durs)]
+        except Exception as e:
+            return True, f"Instruction() raised {type(e).__name__}: {e}"
         log = None
         if w.get("shuf") is not None:
             log = sc.ShuffleLog(replay=w["shuf"])
